@@ -1,6 +1,7 @@
 import Heathcliff.Proofs.C02V
 import Heathcliff.Proofs.C05U
 import Heathcliff.Proofs.C04T
+import Heathcliff.Proofs.NonVac
 namespace HC
 
 /-! ## Y1: `ctValid` versus `CtCanon` -/
@@ -270,6 +271,14 @@ theorem c06y_mapM_length {α β : Type} (F : α → R β) : ∀ (xs : List α) (
         simp only [pure, Except.pure, Except.ok.injEq] at h
         subst h
         simp [c06y_mapM_length F xs ys' hys']
+
+theorem c06y_scale_ntt {l : Level} {f e : Nat} {c r : Ct} (h : c02v_scale l f c e = .ok r) : r.ntt = c.ntt := by
+  unfold c02v_scale at h
+  simp only [bind, Except.bind] at h
+  split at h
+  · cases h
+  · simp only [pure, Except.pure, Except.ok.injEq] at h
+    subst h; rfl
 
 /-! ## Property theorems -/
 
@@ -698,5 +707,148 @@ theorem modSwitchScaleNext_preserves_valid {l l' : Level} (hl : l.scheme ≠ .bf
       by_contra h'; rw [(modSwitchScaleNext_refusals ct).2.2.2 hs (by simpa using h')] at hr; cases hr
     obtain ⟨r', hr', _, _, _, _, hiff⟩ := modSwitchScaleNext_bgv_valid_iff (hl (by rw [hs]; decide)) h (hg hs) hn h2 hs hv hntt
     rw [hr] at hr'; cases hr'; exact hiff.mpr (hcf hs)
+
+/-! ### non-vacuity of the level bundles: the two-level world of `Proofs/NonVac.lean` (N = 4, q = {97, 113}, t = 17, tool and
+      tables built by the model's constructors `RNSTool.new`, `NTTTables.new`, `RNSBase.new`), with the scheme as a parameter -/
+
+def c06y_nvL (s : Scheme) : Level := { nv_level with scheme := s }
+def c06y_nvL1 (s : Scheme) : Level := { nv_level1 with scheme := s }
+
+theorem c06y_nvL_wf (s : Scheme) : (c06y_nvL s).WF := ⟨nv_level_wf.npow, nv_level_wf.tsize, nv_level_wf.twf⟩
+theorem c06y_nvL_tool (s : Scheme) : c05u_ToolOK (c06y_nvL s) :=
+  ⟨nv_toolOK_fields.1, nv_toolOK_fields.2.1, nv_toolOK_fields.2.2.1, nv_toolOK_fields.2.2.2⟩
+theorem c06y_nvL_bgv (s : Scheme) : c05u_BgvOK (c06y_nvL s) :=
+  ⟨nv_bgvOK_fields.1, nv_bgvOK_fields.2.1, nv_bgvOK_fields.2.2.1, nv_bgvOK_fields.2.2.2⟩
+theorem c06y_nvL_next (s : Scheme) : c06y_NextLevel (c06y_nvL s) (c06y_nvL1 s) :=
+  ⟨⟨nv_isNext_fields.1, nv_isNext_fields.2.1, nv_isNext_fields.2.2⟩, rfl, rfl⟩
+theorem c06y_nvL_qs (s : Scheme) : c02v_QsWF (c06y_nvL s) := c02v_qsWF_of_levelWF (c06y_nvL_wf s)
+
+/-- the ciphertext of `NonVac` with representation flag and correction factor as parameters -/
+def c06y_nvCt (ntt : Bool) (f : Nat) : Ct := ⟨#[nv_c0enc, nv_c1], ntt, f⟩
+
+theorem c06y_nvCt_canon (s : Scheme) (ntt : Bool) (f : Nat) : c05u_CtCanon (c06y_nvL s) (c06y_nvCt ntt f) := by
+  intro k hk
+  have hk' : k < 2 := hk
+  interval_cases k
+  · exact nv_c0enc_canon
+  · exact nv_c1_canon
+
+theorem c06y_nvCt_valid_bgv (ntt : Bool) (f : Nat) (h0 : f ≠ 0) (h17 : f ≤ 17) :
+    ctValid (c06y_nvL .bgv) (c06y_nvCt ntt f) true false = true :=
+  c06y_valid_mk (Or.inr ⟨Nat.le_refl 2, (by decide : 2 ≤ 16)⟩) (c06y_nvCt_canon .bgv ntt f) (rfl : true = true) ⟨h0, h17⟩
+
+theorem c06y_nvCt_valid_bfv : ctValid (c06y_nvL .bfv) (c06y_nvCt false 1) true false = true :=
+  c06y_valid_mk (Or.inr ⟨by decide, by decide⟩) (c06y_nvCt_canon .bfv false 1) (rfl : true = true) (rfl : (1 : Nat) = 1)
+
+theorem c06y_nvCt_valid_ckks : ctValid (c06y_nvL .ckks) (c06y_nvCt true 1) false false = true :=
+  c06y_valid_mk (Or.inr ⟨by decide, by decide⟩) (c06y_nvCt_canon .ckks true 1) (rfl : false = false) (rfl : (1 : Nat) = 1)
+
+/-- FINDING (validity predicate): BGV `mod_switch_to_next` of a VALID ciphertext with correction factor t = 17 succeeds and returns a
+    ciphertext with correction factor 0, not valid at the next level -/
+theorem modSwitchScaleNext_bgv_needs_cf_ne_t :
+    ∃ ct r, ctValid (c06y_nvL .bgv) ct true false = true ∧ modSwitchScaleNext (c06y_nvL .bgv) ct = .ok r ∧
+      c05u_CtCanon (c06y_nvL1 .bgv) r ∧ ctValid (c06y_nvL1 .bgv) r true false = false := by
+  have hv := c06y_nvCt_valid_bgv true 17 (by decide) (by decide)
+  obtain ⟨r, hr, _, _, _, cr, hiff⟩ := modSwitchScaleNext_bgv_valid_iff (c06y_nvL_wf .bgv) (c06y_nvL_tool .bgv) (c06y_nvL_bgv .bgv)
+    (c06y_nvL_next .bgv) (by decide) rfl hv rfl
+  refine ⟨_, r, hv, hr, cr, ?_⟩
+  cases h : ctValid (c06y_nvL1 .bgv) r true false
+  · rfl
+  · exact absurd rfl (hiff.mp h)
+
+/-- the three switching theorems are not vacuous: they apply in the constructor-built world -/
+example : ∃ r, modSwitchScaleNext (c06y_nvL .bfv) (c06y_nvCt false 1) = .ok r ∧ ctValid (c06y_nvL1 .bfv) r true false = true :=
+  let ⟨r, h, v, _⟩ := modSwitchScaleNext_bfv_valid (c06y_nvL_tool .bfv) (c06y_nvL_next .bfv) (by decide) rfl c06y_nvCt_valid_bfv rfl
+  ⟨r, h, v⟩
+example : ∃ r, modSwitchScaleNext (c06y_nvL .ckks) (c06y_nvCt true 1) = .ok r ∧ ctValid (c06y_nvL1 .ckks) r false false = true :=
+  let ⟨r, h, v, _⟩ := modSwitchScaleNext_ckks_valid (c06y_nvL_wf .ckks) (c06y_nvL_tool .ckks) (c06y_nvL_next .ckks) (by decide) rfl
+    c06y_nvCt_valid_ckks rfl
+  ⟨r, h, v⟩
+example : ∃ r, modSwitchScaleNext (c06y_nvL .bgv) (c06y_nvCt true 3) = .ok r ∧ ctValid (c06y_nvL1 .bgv) r true false = true :=
+  let ⟨r, h, v, _⟩ := modSwitchScaleNext_bgv_valid (c06y_nvL_wf .bgv) (c06y_nvL_tool .bgv) (c06y_nvL_bgv .bgv) (c06y_nvL_next .bgv)
+    (by decide) rfl (c06y_nvCt_valid_bgv true 3 (by decide) (by decide)) rfl (by decide)
+  ⟨r, h, v⟩
+example : ∃ r, modSwitchDropNext (c06y_nvL .ckks) (c06y_nvCt true 1) = .ok r ∧ ctValid (c06y_nvL1 .ckks) r false false = true :=
+  let ⟨r, h, v, _⟩ := modSwitchDropNext_valid (c06y_nvL_next .ckks) (by decide) c06y_nvCt_valid_ckks (fun _ => rfl)
+  ⟨r, h, v⟩
+example : ∃ r, bgvMultiply (c06y_nvL .bgv) (c06y_nvCt true 3) (c06y_nvCt true 5) = .ok r ∧
+    ctValid (c06y_nvL .bgv) r true false = true ∧ r.polys.size = 3 :=
+  let ⟨r, h, v, sz, _⟩ := bgvMultiply_valid (c06y_nvL_qs .bgv) nv_m17_wf rfl (c06y_nvCt_valid_bgv true 3 (by decide) (by decide))
+    (c06y_nvCt_valid_bgv true 5 (by decide) (by decide)) rfl rfl (by decide) (by decide) (by decide) (by decide) (by decide)
+  ⟨r, h, v, sz⟩
+example : ∃ r, ctTranslateBalanced (c06y_nvL .bgv) (c06y_nvCt true 3) (c06y_nvCt true 5) true = .ok r ∧
+    ctValid (c06y_nvL .bgv) r true false = true :=
+  let ⟨r, h, v, _⟩ := ctTranslateBalanced_valid (c06y_nvL_qs .bgv) (fun _ => nv_m17_wf)
+    (c06y_nvCt_valid_bgv true 3 (by decide) (by decide)) (c06y_nvCt_valid_bgv true 5 (by decide) (by decide)) true rfl
+    (fun _ => ⟨by decide, by decide⟩)
+  ⟨r, h, v⟩
+
+/-! ### Y3: refusals — metadata the operations inspect -/
+
+/-- Y3: operands in different representations are never accepted by the balanced add / sub either (on the balancing path the
+    error is the first one met: a failed balancing, or the representation check after the scaling) -/
+theorem ctTranslateBalanced_refuse_ntt (l : Level) (a b : Ct) (sub : Bool) (h : a.ntt ≠ b.ntt) :
+    ∃ e, ctTranslateBalanced l a b sub = .error e := by
+  by_cases hcf : a.cf = b.cf
+  · rw [ctTranslateBalanced_same l a b sub hcf, ctTranslate_refuse_ntt l a b sub h]
+    exact ⟨_, rfl⟩
+  · rw [c02v_balanced_eq l a b sub hcf]
+    cases hb : balanceCorrectionFactors a.cf b.cf l.t with
+    | error e => exact ⟨e, rfl⟩
+    | ok r =>
+      simp only [bind, Except.bind]
+      cases ha' : c02v_scale l r.1 a r.2.1 with
+      | error e => exact ⟨e, rfl⟩
+      | ok a' =>
+        cases hb' : c02v_scale l r.1 b r.2.2 with
+        | error e => exact ⟨e, rfl⟩
+        | ok b' =>
+          show ∃ e, ctTranslate l a' b' sub = .error e
+          rw [ctTranslate_refuse_ntt l a' b' sub (by rw [c06y_scale_ntt ha', c06y_scale_ntt hb']; exact h)]
+          exact ⟨_, rfl⟩
+
+/-- Y3: `bfv_multiply` refuses NTT-form operands -/
+theorem bfvMultiply_refuse_ntt (l : Level) (bsk : Array NTTTables) (a b : Ct) (h : a.ntt = true ∨ b.ntt = true) :
+    bfvMultiply l bsk a b = .error .refused := by
+  unfold bfvMultiply
+  rw [if_pos h]
+
+/-- Y3, summary of the representation / scheme / level / size refusals of the modelled operations (a ciphertext of the model has
+    no level tag: "operands at different levels" is not representable in the single-level signatures `op (l : Level) a b`;
+    representation and scheme mismatches are, and they are refused) -/
+theorem evaluator_refusals (l : Level) (a b : Ct) (sub : Bool) (p : RnsPoly) :
+    (a.ntt ≠ b.ntt → ctTranslate l a b sub = .error .refused) ∧
+    (a.ntt ≠ b.ntt → ∃ e, ctTranslateBalanced l a b sub = .error e) ∧
+    (a.ntt = false ∨ b.ntt = false → ctMultiplyDyadic l a b = .error .refused) ∧
+    (a.ntt = false ∨ b.ntt = false → bgvMultiply l a b = .error .refused) ∧
+    (a.ntt = true → b.ntt = true → a.polys.size = 0 ∨ b.polys.size = 0 → ctMultiplyDyadic l a b = .error .refused) ∧
+    (a.ntt = false → ctMultiplyPlainNtt l a p = .error .refused) ∧
+    (∀ bsk, a.ntt = true ∨ b.ntt = true → bfvMultiply l bsk a b = .error .refused) ∧
+    (l.size < 2 → modSwitchScaleNext l a = .error .refused) ∧
+    (l.scheme = .bfv → a.ntt = true → modSwitchScaleNext l a = .error .refused) ∧
+    (l.scheme = .ckks → a.ntt = false → modSwitchScaleNext l a = .error .refused) ∧
+    (l.scheme = .bgv → a.ntt = false → modSwitchScaleNext l a = .error .refused) ∧
+    (l.size < 2 → modSwitchDropNext l a = .error .refused) ∧
+    (l.scheme = .ckks → a.ntt = false → modSwitchDropNext l a = .error .refused) :=
+  ⟨ctTranslate_refuse_ntt l a b sub, ctTranslateBalanced_refuse_ntt l a b sub, ctMultiplyDyadic_refuse l a b,
+    bgvMultiply_refuse l a b, ctMultiplyDyadic_refuse_empty l a b, ctMultiplyPlainNtt_refuse l a p,
+    fun bsk => bfvMultiply_refuse_ntt l bsk a b,
+    (modSwitchScaleNext_refusals a).1, (modSwitchScaleNext_refusals a).2.1, (modSwitchScaleNext_refusals a).2.2.1,
+    (modSwitchScaleNext_refusals a).2.2.2, (modSwitchDropNext_refusals a).1, (modSwitchDropNext_refusals a).2⟩
+
+/-- Y3, what the model does NOT do: the operations of the model are the bodies AFTER `check_ciphertext`; they do not re-run the
+    validator.  E.g. `ctNegate` of a (canonical) ciphertext with the invalid correction factor 0 succeeds and returns an invalid
+    ciphertext — the refusal of invalid operands is `ctValid` itself (`Evaluator::check_ciphertext` panics iff it is false). -/
+theorem ctNegate_does_not_validate {l : Level} (hq : c02v_QsWF l) (hs : l.scheme = .bgv) {a : Ct} {s1 s2 : Bool}
+    (ha : ctValid l a s1 s2 = true) :
+    ctValid l { a with cf := 0 } s1 s2 = false ∧
+      ∃ r, ctNegate l { a with cf := 0 } = .ok r ∧ ctValid l r s1 s2 = false := by
+  have hbad : ∀ c : Ct, c.cf = 0 → ctValid l c s1 s2 = false := by
+    intro c hc
+    cases h : ctValid l c s1 s2
+    · rfl
+    · exact absurd hc ((c06y_cfOk_bgv hs _).mp (c06y_valid_parts h).cf).1
+  obtain ⟨r, hr, _, _, _, fr⟩ := c06y_negate_core (a := { a with cf := 0 }) hq (c06y_valid_parts ha).canon
+  exact ⟨hbad _ rfl, r, hr, hbad r fr⟩
 
 end HC
